@@ -794,3 +794,96 @@ Definition ex_tree : obj :=
 Definition ex_parent_attr : obj :=
   Node 0 [77] [ (mk_attr s_parent true false, [Prim 1 [53]]); (mk_attr [107] true true, [Node 1 [65] []]) ].
 Local Close Scope N_scope.
+
+(* ------------------------------------------------------------------ order for arbitrary containment descendants *)
+Lemma flat_map_incl {A B} (f g : A -> list B) l x :
+  (forall a y, In y (f a) -> In y (g a)) -> In x (flat_map f l) -> In x (flat_map g l).
+Proof.
+  intros H Hx. apply in_flat_map in Hx as [a [Ha Hy]]. apply in_flat_map. exists a. split; [assumption | apply H; assumption].
+Qed.
+
+(* the pruned walk and the full pre-order split around the subtree of a walked object, and whatever
+   the pruned walk has outside that subtree lies outside it in the full walk as well *)
+Lemma walk_split2 sf cf o : forall a,
+  In a (walk sf cf o) ->
+  exists L1 L2 M1 M2,
+    walk sf cf o = L1 ++ walk sf cf a ++ L2 /\
+    nodes o = M1 ++ nodes a ++ M2 /\
+    (forall x, In x (L1 ++ L2) -> In x (M1 ++ M2)).
+Proof.
+  induction o as [k t|t|id c slots IH] using obj_ind'; intros a Ha; try contradiction.
+  apply in_walk_node in Ha as [->|Ha].
+  - exists [], [], [], []. rewrite !app_nil_r. repeat split. intros x [].
+  - apply in_below in Ha as [m [vs [v [H1 [H2 [H3 [H4 H5]]]]]]].
+    destruct (IH_get _ _ _ _ _ IH H1 H3 a H5) as [l1 [l2 [m1 [m2 [E [En Hi]]]]]].
+    apply in_split in H1 as [x1 [x2 Es]]. apply in_split in H3 as [y1 [y2 Ev]].
+    set (P1 := flat_map (wslot sf cf) x1). set (P2 := flat_map (wslot sf cf) x2).
+    set (Q1 := flat_map (wval sf cf) y1). set (Q2 := flat_map (wval sf cf) y2).
+    set (P1' := flat_map (wslot allf false) x1). set (P2' := flat_map (wslot allf false) x2).
+    set (Q1' := flat_map (wval allf false) y1). set (Q2' := flat_map (wval allf false) y2).
+    assert (Eb : below sf cf slots = (P1 ++ Q1 ++ l1) ++ walk sf cf a ++ (l2 ++ Q2 ++ P2)).
+    { unfold below. rewrite Es, flat_map_app. simpl. rewrite wslot_vals, H2, Ev, flat_map_app. simpl.
+      unfold wval at 2. rewrite H4, E. unfold P1, P2, Q1, Q2. repeat rewrite <- app_assoc. reflexivity. }
+    assert (Eb' : below allf false slots = (P1' ++ Q1' ++ m1) ++ nodes a ++ (m2 ++ Q2' ++ P2')).
+    { unfold below. rewrite Es, flat_map_app. simpl. rewrite wslot_vals, H2, Ev, flat_map_app. simpl.
+      unfold wval at 2. cbn beta iota. change (walk allf false v) with (nodes v). rewrite En.
+      unfold P1', P2', Q1', Q2'. repeat rewrite <- app_assoc. reflexivity. }
+    assert (IP1 : forall x, In x P1 -> In x P1') by (intros x; apply flat_map_incl; intros s y; apply wslot_incl).
+    assert (IP2 : forall x, In x P2 -> In x P2') by (intros x; apply flat_map_incl; intros s y; apply wslot_incl).
+    assert (IQ1 : forall x, In x Q1 -> In x Q1') by (intros x; apply flat_map_incl; intros s y; apply wval_incl).
+    assert (IQ2 : forall x, In x Q2 -> In x Q2') by (intros x; apply flat_map_incl; intros s y; apply wval_incl).
+    assert (Hl : forall x, In x l1 \/ In x l2 -> In x m1 \/ In x m2).
+    { intros x Hx. apply in_app_or. apply Hi. apply in_or_app. exact Hx. }
+    rewrite walk_node, nodes_node, Eb, Eb'. destruct cf.
+    + exists (P1 ++ Q1 ++ l1), ((l2 ++ Q2 ++ P2) ++ [Node id c slots]),
+             (Node id c slots :: P1' ++ Q1' ++ m1), (m2 ++ Q2' ++ P2').
+      split; [repeat rewrite <- app_assoc; reflexivity|]. split; [reflexivity|].
+      intros x Hx. repeat (rewrite in_app_iff in Hx || simpl in Hx).
+      repeat (rewrite in_app_iff || simpl).
+      destruct Hx as [[H|[H|H]]|[[H|[H|H]]|[H|[]]]]; auto 10.
+      * destruct (Hl x (or_introl H)); auto 10.
+      * destruct (Hl x (or_intror H)); auto 10.
+    + exists (Node id c slots :: P1 ++ Q1 ++ l1), (l2 ++ Q2 ++ P2),
+             (Node id c slots :: P1' ++ Q1' ++ m1), (m2 ++ Q2' ++ P2').
+      split; [reflexivity|]. split; [reflexivity|].
+      intros x Hx. repeat (rewrite in_app_iff in Hx || simpl in Hx).
+      repeat (rewrite in_app_iff || simpl).
+      destruct Hx as [[H|[H|[H|H]]]|[H|[H|H]]]; auto 10.
+      * destruct (Hl x (or_introl H)); auto 10.
+      * destruct (Hl x (or_intror H)); auto 10.
+Qed.
+
+(* in a tree with distinct identities, a walked object that lies in the subtree of a walked object a
+   is reached from a through followed links *)
+Lemma walked_descendant_reached sf cf root a b :
+  uniq root -> In a (walk sf cf root) -> In b (walk sf cf root) -> In b (nodes a) -> reach sf a b.
+Proof.
+  intros Hu Ha Hb Hd. destruct (walk_split2 sf cf root a Ha) as [L1 [L2 [M1 [M2 [E [En Hi]]]]]].
+  rewrite E in Hb. apply in_app_or in Hb as [Hb|Hb]; [|apply in_app_or in Hb as [Hb|Hb]].
+  - exfalso. unfold uniq in Hu. rewrite En, map_app, map_app in Hu.
+    assert (Hm : In b (M1 ++ M2)) by (apply Hi; apply in_or_app; left; assumption).
+    apply NoDup_app_iff in Hu as [_ [Hu2 Hd1]]. apply NoDup_app_iff in Hu2 as [_ [_ Hd2]].
+    apply in_app_or in Hm as [Hm|Hm].
+    + apply (Hd1 (obj_id b)); [apply in_map; assumption | apply in_or_app; left; apply in_map; assumption].
+    + apply (Hd2 (obj_id b)); apply in_map; assumption.
+  - apply (walk_reach sf cf). assumption.
+  - exfalso. unfold uniq in Hu. rewrite En, map_app, map_app in Hu.
+    assert (Hm : In b (M1 ++ M2)) by (apply Hi; apply in_or_app; right; assumption).
+    apply NoDup_app_iff in Hu as [_ [Hu2 Hd1]]. apply NoDup_app_iff in Hu2 as [_ [_ Hd2]].
+    apply in_app_or in Hm as [Hm|Hm].
+    + apply (Hd1 (obj_id b)); [apply in_map; assumption | apply in_or_app; left; apply in_map; assumption].
+    + apply (Hd2 (obj_id b)); apply in_map; assumption.
+Qed.
+
+Theorem children_order_desc sel sf cf root a b :
+  uniq root -> In b (nodes a) -> a <> b ->
+  In a (get_children sel root cf sf) -> In b (get_children sel root cf sf) ->
+  exists l1 l2 l3,
+    get_children sel root cf sf =
+    if cf then l1 ++ b :: l2 ++ a :: l3 else l1 ++ a :: l2 ++ b :: l3.
+Proof.
+  intros Hu Hd Hne Ha Hb. apply children_order; try assumption.
+  rewrite get_children_uniq in Ha, Hb by assumption.
+  apply filter_In in Ha as [Ha _]. apply filter_In in Hb as [Hb _].
+  eapply walked_descendant_reached; eassumption.
+Qed.
